@@ -21,30 +21,52 @@ Summary (`n = |S|`, heap in bytes, `L` = number of levels):
 Two statements of the request do not hold as worded and are replaced (see the end of the file):
 `RepInv` does not bound the sample arrays from above (`repInv_not_sufficient`), and `RSWSize`
 is one entry too tight on the padded last line (`rsw_sizes_false`); `RSWSize'` (`n/8192 + 5`
-sample entries) is what `RSWide::new` establishes, and it yields the same bit bound. -/
+sample entries) is what `RSWide::new` establishes, and it yields the same bit bound.
+
+Tuning constants.  The select sampling periods and the sample shift of the prefetch support are
+extracted from the crate (`Qwt/Extracted.lean`).  The size facts are stated with the extracted
+names (`RSQSizeP`: `n / rsqSelectNumSamples + 8`, `RSWSize'`: `n / widePer + 5`,
+`nb n = ⌈(n-1)/rate⌉ + 1` with `rate = 2 ^ pfsSampleShift`); for the values at the time of
+writing (8192, 8192, 2048) they are the literal facts (`…_8192`, `…_2048` corollaries, which
+take the value of the constant as a hypothesis that `rfl` discharges).  The numeric space bounds
+below are unchanged and use only the side conditions `4096 ≤ rsqSelectNumSamples`,
+`4096 ≤ wide*PerHint`, `1024 ≤ narrow*PerHint`, `10 ≤ pfsSampleShift`, decided on the extracted
+values (larger periods only make the structures smaller). -/
 namespace Qwt.Props.C14
 open Qwt Qwt.Space Qwt.SpaceSizes
 
 /-! ### 1. `RSQVector`: the size facts -/
 
 /-- the size facts follow from the representation invariant plus the (exact) sizes of the
-    sample arrays, `sampLen (count c) = max 1 ⌈count c / 8192⌉ + 1` -/
+    sample arrays, `sampLen (count c) = max 1 ⌈count c / P⌉ + 1`, `P = rsqSelectNumSamples` -/
 theorem rsq_sizes {B : Nat} {r : RSQ.RSQVector} {s : List Nat} (h : RSQP.RepInv B r s)
-    (hs : RSQSamples r s) : RSQSize B s.length r :=
+    (hs : RSQSamples r s) : RSQSizeP B s.length r :=
   rsqSize_of h.holds h.rs hs
 
 /-- `RSQVector::from` establishes invariant, sample sizes and hence the size facts -/
 theorem rsq_fromQV {B : Nat} {qv : QV.QVector} {s : List Nat} (dbg : Bool) (hB : B = 256 ∨ B = 512)
     (h : QV.Holds qv s) (hs : ∀ x ∈ s, x < 4) (hl : s.length < 2 ^ 43) :
-    ∃ r, RSQ.fromQV dbg B qv = .ok r ∧ RSQP.RepInv B r s ∧ RSQSamples r s ∧ RSQSize B s.length r := by
+    ∃ r, RSQ.fromQV dbg B qv = .ok r ∧ RSQP.RepInv B r s ∧ RSQSamples r s ∧ RSQSizeP B s.length r := by
   obtain ⟨r, e, hinv⟩ := RSQP.fromQV_ok dbg hB h hs hl
   have hsm := fromQV_samples hB h hs hl e
   exact ⟨r, e, hinv, hsm, rsq_sizes hinv hsm⟩
 
 theorem rsq_sizes_of_fromQV {B : Nat} {qv : QV.QVector} {s : List Nat} {r : RSQ.RSQVector} (dbg : Bool)
     (hB : B = 256 ∨ B = 512) (h : QV.Holds qv s) (hs : ∀ x ∈ s, x < 4) (hl : s.length < 2 ^ 43)
-    (e : RSQ.fromQV dbg B qv = .ok r) : RSQSize B s.length r :=
+    (e : RSQ.fromQV dbg B qv = .ok r) : RSQSizeP B s.length r :=
   fromQV_sizes hB h hs hl e
+
+/-- the literal forms (`Space.RSQSize`: `n / 8192 + 8` sample entries), for every sampling period
+    of at least 8192 — in particular for the current one (`hP` by `decide`) -/
+theorem rsq_sizes_8192 (hP : 8192 ≤ Extracted.rsqSelectNumSamples) {B : Nat} {r : RSQ.RSQVector}
+    {s : List Nat} (h : RSQP.RepInv B r s) (hs : RSQSamples r s) : RSQSize B s.length r :=
+  (rsq_sizes h hs).toRSQSize hP
+
+theorem rsq_sizes_of_fromQV_8192 (hP : 8192 ≤ Extracted.rsqSelectNumSamples) {B : Nat}
+    {qv : QV.QVector} {s : List Nat} {r : RSQ.RSQVector} (dbg : Bool)
+    (hB : B = 256 ∨ B = 512) (h : QV.Holds qv s) (hs : ∀ x ∈ s, x < 4) (hl : s.length < 2 ^ 43)
+    (e : RSQ.fromQV dbg B qv = .ok r) : RSQSize B s.length r :=
+  (rsq_sizes_of_fromQV dbg hB h hs hl e).toRSQSize hP
 
 /-- PARTIAL form of the requested `RepInv B r s → RSQSize B s.length r`: the invariant gives the
     lines and the superblocks; the bound on the sample arrays is the named hypothesis -/
@@ -82,8 +104,65 @@ variable {c : Cfg} {S : List Nat} {t : QWTree.QWT}
 theorem qwt_levels (hB : c.B = 256 ∨ c.B = 512) (hW : 0 < c.W) (hS : ∀ x ∈ S, x < 2 ^ c.W)
     (hlen : S.length < 2 ^ 43) (hnew : QWTree.new c S.toArray = .ok t) :
     t.qvs.size = (Spec.bitlen (Spec.maxNat S) + 1) / 2 ∧
-      ∀ r ∈ t.qvs.toList, RSQSize c.B S.length r :=
+      ∀ r ∈ t.qvs.toList, RSQSizeP c.B S.length r :=
   ⟨(new_sizes c hB hW S hS hlen hnew).qsz, (new_sizes c hB hW S hS hlen hnew).qv⟩
+
+/-- … with the literal size facts, for every sampling period of at least 8192 -/
+theorem qwt_levels_8192 (hP : 8192 ≤ Extracted.rsqSelectNumSamples) (hB : c.B = 256 ∨ c.B = 512)
+    (hW : 0 < c.W) (hS : ∀ x ∈ S, x < 2 ^ c.W)
+    (hlen : S.length < 2 ^ 43) (hnew : QWTree.new c S.toArray = .ok t) :
+    t.qvs.size = (Spec.bitlen (Spec.maxNat S) + 1) / 2 ∧
+      ∀ r ∈ t.qvs.toList, RSQSize c.B S.length r :=
+  ⟨(qwt_levels hB hW hS hlen hnew).1, fun r hr => ((qwt_levels hB hW hS hlen hnew).2 r hr).toRSQSize hP⟩
+
+/-! the level sums of `Qwt/Props/C14.lean` (`heaps_256`, `qwt256_space`, …) from `RSQSizeP` -/
+
+theorem heaps_256P (n : Nat) (l : List RSQ.RSQVector) (h : ∀ r ∈ l, RSQSizeP 256 n r) :
+    ∀ x ∈ (l.map rsq).map (·.heap), 800 * (x + 144) ≤ 227 * n + 260000 := by
+  intro x hx
+  simp only [List.map_map, List.mem_map, Function.comp] at hx
+  obtain ⟨r, hr, rfl⟩ := hx
+  have := rsqP_level_bits_256 n r (h r hr)
+  have hs : (rsq r).self_ = 144 := rfl
+  rw [hs] at this
+  exact this
+
+/-- block size 512, with one `n` to spare (`428`; the sampling structures of a prefetch support
+    with a smaller sample shift may use it) -/
+theorem heaps_512P (n : Nat) (l : List RSQ.RSQVector) (h : ∀ r ∈ l, RSQSizeP 512 n r) :
+    ∀ x ∈ (l.map rsq).map (·.heap), 1600 * (x + 144) ≤ 428 * n + 520000 := by
+  intro x hx
+  simp only [List.map_map, List.mem_map, Function.comp] at hx
+  obtain ⟨r, hr, rfl⟩ := hx
+  have := rsqP_level_bits_512_428 n r (h r hr)
+  have hs : (rsq r).self_ = 144 := rfl
+  rw [hs] at this
+  exact this
+
+theorem qwt256_spaceP (n : Nat) (t : QWTree.QWT) (hp : t.pfs = none)
+    (h : ∀ r ∈ t.qvs.toList, RSQSizeP 256 n r) :
+    800 * (qwt t).heap ≤ t.qvs.size * (227 * n + 260000) := by
+  have := scaled_sum_le 800 144 _ _ (heaps_256P n t.qvs.toList h)
+  simp only [List.length_map, Array.length_toList] at this
+  simp only [qwt, hp, pfsOpt, foldl_plus_eq, Nat.zero_add, Nat.add_zero]
+  generalize (List.map (fun x => x.heap) (List.map rsq t.qvs.toList)).sum = S at *
+  generalize t.qvs.size * (227 * n + 260000) = R at *
+  omega
+
+theorem qwt512_spaceP_428 (n : Nat) (t : QWTree.QWT) (hp : t.pfs = none)
+    (h : ∀ r ∈ t.qvs.toList, RSQSizeP 512 n r) :
+    1600 * (qwt t).heap ≤ t.qvs.size * (428 * n + 520000) := by
+  have := scaled_sum_le 1600 144 _ _ (heaps_512P n t.qvs.toList h)
+  simp only [List.length_map, Array.length_toList] at this
+  simp only [qwt, hp, pfsOpt, foldl_plus_eq, Nat.zero_add, Nat.add_zero]
+  generalize (List.map (fun x => x.heap) (List.map rsq t.qvs.toList)).sum = S at *
+  generalize t.qvs.size * (428 * n + 520000) = R at *
+  omega
+
+theorem qwt512_spaceP (n : Nat) (t : QWTree.QWT) (hp : t.pfs = none)
+    (h : ∀ r ∈ t.qvs.toList, RSQSizeP 512 n r) :
+    1600 * (qwt t).heap ≤ t.qvs.size * (429 * n + 520000) :=
+  Nat.le_trans (qwt512_spaceP_428 n t hp h) (Nat.mul_le_mul_left _ (by omega))
 
 /-- quad tree, block size 256, without prefetch support:
     `heap bits ≤ 2nL·(1 + 1/8 + 1/100) + 2600·L` -/
@@ -92,7 +171,7 @@ theorem qwt_space_256 (hB : c.B = 256) (hp : c.pfs = false) (hW : 0 < c.W)
     (hnew : QWTree.new c S.toArray = .ok t) :
     800 * (qwt t).heap ≤ (Spec.bitlen (Spec.maxNat S) + 1) / 2 * (227 * S.length + 260000) := by
   have hs := new_sizes c (Or.inl hB) hW S hS hlen hnew
-  have := qwt256_space S.length t (hs.pfs_none (Or.inl hp)) (by rw [← hB]; exact hs.qv)
+  have := qwt256_spaceP S.length t (hs.pfs_none (Or.inl hp)) (by rw [← hB]; exact hs.qv)
   rw [hs.qsz] at this
   exact this
 
@@ -103,29 +182,48 @@ theorem qwt_space_512 (hB : c.B = 512) (hp : c.pfs = false) (hW : 0 < c.W)
     (hnew : QWTree.new c S.toArray = .ok t) :
     1600 * (qwt t).heap ≤ (Spec.bitlen (Spec.maxNat S) + 1) / 2 * (429 * S.length + 520000) := by
   have hs := new_sizes c (Or.inr hB) hW S hS hlen hnew
-  have := qwt512_space S.length t (hs.pfs_none (Or.inl hp)) (by rw [← hB]; exact hs.qv)
+  have := qwt512_spaceP S.length t (hs.pfs_none (Or.inl hp)) (by rw [← hB]; exact hs.qv)
   rw [hs.qsz] at this
   exact this
 
 /-! #### the sampling structures of the prefetch support -/
 
-/-- `nbOf n = ⌈(n-1)/2048⌉ + 1` sample bits occupy at most `n/2^20 + 2` lines of 512 bits -/
-theorem nb_lines (n : Nat) : (PfsP.nbOf n + 511) / 512 ≤ n / 1048576 + 2 := by
-  unfold PfsP.nbOf
-  split <;> omega
+/-- `nbOf n = ⌈(n-1)/rate⌉ + 1` sample bits occupy at most `n/(512·rate) + 2` lines of 512 bits
+    (`rate = 2 ^ pfsSampleShift`; `n/2^20 + 2` for the shift 11, `nb_lines_2048`) -/
+theorem nb_lines (n : Nat) : (PfsP.nbOf n + 511) / 512 ≤ n / (512 * PfsP.rate) + 2 := by
+  have hR := PfsP.rate_pos
+  have h1 : PfsP.nbOf n ≤ n / PfsP.rate + 2 := by
+    unfold PfsP.nbOf
+    split
+    · exact Nat.zero_le _
+    · have := Nat.div_le_div_right (c := PfsP.rate) (show n + PfsP.rate - 2 ≤ n + PfsP.rate by omega)
+      rw [Nat.add_div_right _ hR] at this
+      generalize (n + PfsP.rate - 2) / PfsP.rate = a at *
+      generalize n / PfsP.rate = b at *
+      omega
+  have h2 : n / (512 * PfsP.rate) = n / PfsP.rate / 512 := by
+    rw [Nat.div_div_eq_div_mul, Nat.mul_comm]
+  rw [h2]
+  generalize n / PfsP.rate = q at *
+  omega
 
-/-- one `RSNarrow` of a level over `n` symbols: `≤ 84·(n/2^20) + 232` bytes -/
+theorem nb_lines_2048 (h11 : Extracted.pfsSampleShift = 11) (n : Nat) :
+    (PfsP.nbOf n + 511) / 512 ≤ n / 1048576 + 2 := by
+  have := nb_lines n
+  rwa [PfsP.rate_2048 h11] at this
+
+/-- one `RSNarrow` of a level over `n` symbols: `≤ 84·(n/(512·rate)) + 232` bytes -/
 theorem rsn_level_heap (n : Nat) (r : RSN.RSNarrow) (h : RSNSize (PfsP.nbOf n) r) :
-    (rsn r).heap ≤ 84 * (n / 1048576) + 232 := by
+    (rsn r).heap ≤ 84 * (n / (512 * PfsP.rate)) + 232 := by
   have h1 := rsn_heap_le _ r h
   have h2 := nb_lines n
   omega
 
 /-- the sampling structure of one level: four `RSNarrow` plus the boxed slice of four headers -/
 theorem pfs_level_heap (n : Nat) (p : PFS.PrefetchSupport) (h : PfsSize n p) :
-    (Space.pfs p).heap ≤ 336 * (n / 1048576) + 1248 := by
+    (Space.pfs p).heap ≤ 336 * (n / (512 * PfsP.rate)) + 1248 := by
   simp only [Space.pfs, foldl_plus_eq, Nat.zero_add, h.size]
-  have hb : ∀ x ∈ (p.samples.toList.map rsn).map (·.heap), x ≤ 84 * (n / 1048576) + 232 := by
+  have hb : ∀ x ∈ (p.samples.toList.map rsn).map (·.heap), x ≤ 84 * (n / (512 * PfsP.rate)) + 232 := by
     intro x hx
     simp only [List.map_map, List.mem_map, Function.comp] at hx
     obtain ⟨r, hr, rfl⟩ := hx
@@ -134,45 +232,86 @@ theorem pfs_level_heap (n : Nat) (p : PFS.PrefetchSupport) (h : PfsSize n p) :
   simp only [List.length_map, Array.length_toList, h.size] at this
   omega
 
-/-- all sampling structures of a tree with `L` levels: `≤ L·(336·(n/2^20) + 1280)` bytes -/
+/-- all sampling structures of a tree with `L` levels: `≤ L·(336·(n/(512·rate)) + 1280)` bytes
+    (`336·(n/2^20)` for the shift 11, `pfs_heap_le_2048`) -/
 theorem pfs_heap_le (n L : Nat) (a : Array PFS.PrefetchSupport) (hsz : a.size = L)
     (h : ∀ p ∈ a.toList, PfsSize n p) :
-    (pfsOpt L (some a)).heap ≤ L * (336 * (n / 1048576) + 1280) := by
+    (pfsOpt L (some a)).heap ≤ L * (336 * (n / (512 * PfsP.rate)) + 1280) := by
   simp only [pfsOpt, foldl_plus_eq, Nat.zero_add]
-  have hb : ∀ x ∈ (a.toList.map Space.pfs).map (·.heap), x ≤ 336 * (n / 1048576) + 1248 := by
+  have hb : ∀ x ∈ (a.toList.map Space.pfs).map (·.heap), x ≤ 336 * (n / (512 * PfsP.rate)) + 1248 := by
     intro x hx
     simp only [List.map_map, List.mem_map, Function.comp] at hx
     obtain ⟨p, hp, rfl⟩ := hx
     exact pfs_level_heap n p (h p hp)
   have := sum_le_of_forall_le _ _ hb
   simp only [List.length_map, Array.length_toList, hsz] at this
-  have e : L * (336 * (n / 1048576) + 1280) = L * (336 * (n / 1048576) + 1248) + 32 * L := by
-    rw [show 336 * (n / 1048576) + 1280 = 336 * (n / 1048576) + 1248 + 32 by omega, Nat.mul_add]
+  generalize n / (512 * PfsP.rate) = q at *
+  have e : L * (336 * q + 1280) = L * (336 * q + 1248) + 32 * L := by
+    rw [show 336 * q + 1280 = 336 * q + 1248 + 32 by omega, Nat.mul_add]
     omega
   rw [e]
   omega
 
+theorem pfs_heap_le_2048 (h11 : Extracted.pfsSampleShift = 11) (n L : Nat)
+    (a : Array PFS.PrefetchSupport) (hsz : a.size = L) (h : ∀ p ∈ a.toList, PfsSize n p) :
+    (pfsOpt L (some a)).heap ≤ L * (336 * (n / 1048576) + 1280) := by
+  have := pfs_heap_le n L a hsz h
+  rwa [PfsP.rate_2048 h11] at this
+
+/-- side condition on the extracted constant for the bit bounds of the sampling structures -/
+theorem shift_ge_ten : 10 ≤ Extracted.pfsSampleShift := by decide
+
+theorem rate_ge_1024 : 1024 ≤ PfsP.rate := by
+  have := Nat.pow_le_pow_right (n := 2) (by decide) shift_ge_ten
+  exact this
+
+theorem pfs_lines_le (n : Nat) : n / (512 * PfsP.rate) ≤ n / 524288 :=
+  Nat.div_le_div_left (show 524288 ≤ 512 * PfsP.rate by have := rate_ge_1024; omega) (by decide)
+
 /-- in bits, scaled by 100: the sampling structures cost at most `L·(n/100 + 10240)` bits,
-    under half a percent of the `2nL` payload bits -/
+    under half a percent of the `2nL` payload bits (every sample shift `≥ 10`) -/
 theorem pfs_bits_le (n L : Nat) (a : Array PFS.PrefetchSupport) (hsz : a.size = L)
     (h : ∀ p ∈ a.toList, PfsSize n p) :
     800 * (pfsOpt L (some a)).heap ≤ L * (n + 1024000) := by
   have h1 := pfs_heap_le n L a hsz h
-  have h2 : 800 * (336 * (n / 1048576) + 1280) ≤ n + 1024000 := by omega
-  calc 800 * (pfsOpt L (some a)).heap ≤ 800 * (L * (336 * (n / 1048576) + 1280)) :=
+  have hq := pfs_lines_le n
+  generalize n / (512 * PfsP.rate) = q at *
+  have h2 : 800 * (336 * q + 1280) ≤ n + 1024000 := by omega
+  calc 800 * (pfsOpt L (some a)).heap ≤ 800 * (L * (336 * q + 1280)) :=
         Nat.mul_le_mul_left _ h1
-    _ = L * (800 * (336 * (n / 1048576) + 1280)) := by
+    _ = L * (800 * (336 * q + 1280)) := by
         rw [← Nat.mul_assoc, ← Nat.mul_assoc, Nat.mul_comm 800 L]
     _ ≤ L * (n + 1024000) := Nat.mul_le_mul_left _ h2
 
-theorem pfs_bits_le_1600 (n L : Nat) (a : Array PFS.PrefetchSupport) (hsz : a.size = L)
+/-- scaled by 200, every sample shift `≥ 10`: at most `L·(2n + 2048000)` … -/
+theorem pfs_bits_le_1600_2n (n L : Nat) (a : Array PFS.PrefetchSupport) (hsz : a.size = L)
+    (h : ∀ p ∈ a.toList, PfsSize n p) :
+    1600 * (pfsOpt L (some a)).heap ≤ L * (2 * n + 2048000) := by
+  have h1 := pfs_heap_le n L a hsz h
+  have hq := pfs_lines_le n
+  generalize n / (512 * PfsP.rate) = q at *
+  have h2 : 1600 * (336 * q + 1280) ≤ 2 * n + 2048000 := by omega
+  calc 1600 * (pfsOpt L (some a)).heap ≤ 1600 * (L * (336 * q + 1280)) :=
+        Nat.mul_le_mul_left _ h1
+    _ = L * (1600 * (336 * q + 1280)) := by
+        rw [← Nat.mul_assoc, ← Nat.mul_assoc, Nat.mul_comm 1600 L]
+    _ ≤ L * (2 * n + 2048000) := Nat.mul_le_mul_left _ h2
+
+/-- … and `L·(n + 2048000)` for every sample shift `≥ 11` (`hR` by `decide` on the current value:
+    `1600·336 / (512·rate) ≤ 1` needs `rate ≥ 1050`) -/
+theorem pfs_bits_le_1600 (hR : 11 ≤ Extracted.pfsSampleShift) (n L : Nat)
+    (a : Array PFS.PrefetchSupport) (hsz : a.size = L)
     (h : ∀ p ∈ a.toList, PfsSize n p) :
     1600 * (pfsOpt L (some a)).heap ≤ L * (n + 2048000) := by
   have h1 := pfs_heap_le n L a hsz h
-  have h2 : 1600 * (336 * (n / 1048576) + 1280) ≤ n + 2048000 := by omega
-  calc 1600 * (pfsOpt L (some a)).heap ≤ 1600 * (L * (336 * (n / 1048576) + 1280)) :=
+  have hr : 2048 ≤ PfsP.rate := Nat.pow_le_pow_right (n := 2) (by decide) hR
+  have hq : n / (512 * PfsP.rate) ≤ n / 1048576 :=
+    Nat.div_le_div_left (show 1048576 ≤ 512 * PfsP.rate by omega) (by decide)
+  generalize n / (512 * PfsP.rate) = q at *
+  have h2 : 1600 * (336 * q + 1280) ≤ n + 2048000 := by omega
+  calc 1600 * (pfsOpt L (some a)).heap ≤ 1600 * (L * (336 * q + 1280)) :=
         Nat.mul_le_mul_left _ h1
-    _ = L * (1600 * (336 * (n / 1048576) + 1280)) := by
+    _ = L * (1600 * (336 * q + 1280)) := by
         rw [← Nat.mul_assoc, ← Nat.mul_assoc, Nat.mul_comm 1600 L]
     _ ≤ L * (n + 2048000) := Nat.mul_le_mul_left _ h2
 
@@ -188,7 +327,7 @@ theorem qwt_space_256_pfs (hB : c.B = 256) (hW : 0 < c.W)
     (hnew : QWTree.new c S.toArray = .ok t) :
     800 * (qwt t).heap ≤ (Spec.bitlen (Spec.maxNat S) + 1) / 2 * (228 * S.length + 1284000) := by
   have hs := new_sizes c (Or.inl hB) hW S hS hlen hnew
-  have h1 := qwt256_space S.length { t with pfs := none } rfl (by rw [← hB]; exact hs.qv)
+  have h1 := qwt256_spaceP S.length { t with pfs := none } rfl (by rw [← hB]; exact hs.qv)
   rw [show ({ t with pfs := none } : QWTree.QWT).qvs.size = t.qvs.size from rfl, hs.qsz,
     show QWTree.nLevelsOf (Spec.maxNat S) = (Spec.bitlen (Spec.maxNat S) + 1) / 2 from rfl] at h1
   rw [qwt_heap_split]
@@ -217,23 +356,23 @@ theorem qwt_space_512_pfs (hB : c.B = 512) (hW : 0 < c.W)
     (hnew : QWTree.new c S.toArray = .ok t) :
     1600 * (qwt t).heap ≤ (Spec.bitlen (Spec.maxNat S) + 1) / 2 * (430 * S.length + 2568000) := by
   have hs := new_sizes c (Or.inr hB) hW S hS hlen hnew
-  have h1 := qwt512_space S.length { t with pfs := none } rfl (by rw [← hB]; exact hs.qv)
+  have h1 := qwt512_spaceP_428 S.length { t with pfs := none } rfl (by rw [← hB]; exact hs.qv)
   rw [show ({ t with pfs := none } : QWTree.QWT).qvs.size = t.qvs.size from rfl, hs.qsz,
     show QWTree.nLevelsOf (Spec.maxNat S) = (Spec.bitlen (Spec.maxNat S) + 1) / 2 from rfl] at h1
   rw [qwt_heap_split]
   have h2 : 1600 * (pfsOpt t.nLevels t.pfs).heap ≤
-      (Spec.bitlen (Spec.maxNat S) + 1) / 2 * (S.length + 2048000) := by
+      (Spec.bitlen (Spec.maxNat S) + 1) / 2 * (2 * S.length + 2048000) := by
     cases hc : c.pfs
     · rw [hs.pfs_none (Or.inl hc)]; simp [pfsOpt]
     · by_cases hne : S = []
       · rw [hs.pfs_none (Or.inr hne)]; simp [pfsOpt]
       · obtain ⟨a, ha, hsz, hp⟩ := hs.pfs_some hc hne
         rw [ha, hs.nLevels hne]
-        exact pfs_bits_le_1600 _ _ a hsz hp
+        exact pfs_bits_le_1600_2n _ _ a hsz hp
   generalize (Spec.bitlen (Spec.maxNat S) + 1) / 2 = L at h1 h2 ⊢
   generalize S.length = n at h1 h2 ⊢
-  have e := Nat.mul_add L (429 * n + 520000) (n + 2048000)
-  have e2 : 429 * n + 520000 + (n + 2048000) = 430 * n + 2568000 := by omega
+  have e := Nat.mul_add L (428 * n + 520000) (2 * n + 2048000)
+  have e2 : 428 * n + 520000 + (2 * n + 2048000) = 430 * n + 2568000 := by omega
   rw [e2] at e
   have s1 := Nat.add_le_add h1 h2
   rw [← Nat.mul_add] at s1
@@ -290,7 +429,7 @@ theorem wt_space_closed (c : Cfg) (hW : 0 < c.W) (S : List Nat) (hb : ∀ x ∈ 
 
 theorem rsq_new_sizes {dbg : Bool} {B : Nat} (hB : B = 256 ∨ B = 512) (vals : List Int)
     (hl : vals.length < 2 ^ 43) {r : RSQ.RSQVector} (h : RSQ.new dbg B vals = .ok r) :
-    RSQSize B vals.length r := by
+    RSQSizeP B vals.length r := by
   unfold RSQ.new at h
   obtain ⟨qv, hq, h⟩ := bind_ok h
   have h64 : two64 = 2 ^ 64 := by decide
@@ -311,13 +450,13 @@ theorem rsq_new_sizes {dbg : Bool} {B : Nat} (hB : B = 256 ∨ B = 512) (vals : 
 theorem rsq_space_256 (dbg : Bool) (vals : List Int) (hl : vals.length < 2 ^ 43) {r : RSQ.RSQVector}
     (h : RSQ.new dbg 256 vals = .ok r) :
     800 * ((rsq r).heap + (rsq r).self_) ≤ 227 * vals.length + 260000 :=
-  level_bits_256 _ r (rsq_new_sizes (Or.inl rfl) vals hl h)
+  rsqP_level_bits_256 _ r (rsq_new_sizes (Or.inl rfl) vals hl h)
 
 /-- `RSQVector::<512>::new`: `(heap + 144)·8 ≤ 2n·(1 + 1/16 + 1/100) + 2600` bits -/
 theorem rsq_space_512 (dbg : Bool) (vals : List Int) (hl : vals.length < 2 ^ 43) {r : RSQ.RSQVector}
     (h : RSQ.new dbg 512 vals = .ok r) :
     1600 * ((rsq r).heap + (rsq r).self_) ≤ 429 * vals.length + 520000 :=
-  level_bits_512 _ r (rsq_new_sizes (Or.inr rfl) vals hl h)
+  rsqP_level_bits_512 _ r (rsq_new_sizes (Or.inr rfl) vals hl h)
 
 /-- `RSWide::new` over a bit vector holding `s`: `(heap + 88)·8 ≤ n·(1 + 3/64) + 6000` bits -/
 theorem rsw_space {b : BV.BitVector} {s : List Bool} (hb : BV.Holds b s) (hl : s.length < 2 ^ 43)
@@ -350,6 +489,12 @@ theorem no_slack_rsq (r : RSQ.RSQVector) :
 
 /-- and, for a vector with the sizes of `RSQSize`, the three terms as functions of `n` -/
 theorem no_slack_rsq_n {B n : Nat} (r : RSQ.RSQVector) (h : RSQSize B n r) :
+    (rsq r).heap = 64 * ((n + 255) / 256) + 64 * (n / (8 * B) + 1)
+      + 4 * (r.rs.selectSamples.toList.map Array.size).sum := by
+  rw [no_slack_rsq, h.lines, h.sbs]
+  omega
+
+theorem no_slack_rsq_nP {B n : Nat} (r : RSQ.RSQVector) (h : RSQSizeP B n r) :
     (rsq r).heap = 64 * ((n + 255) / 256) + 64 * (n / (8 * B) + 1)
       + 4 * (r.rs.selectSamples.toList.map Array.size).sum := by
   rw [no_slack_rsq, h.lines, h.sbs]
@@ -418,6 +563,30 @@ theorem repInv_not_sufficient :
     omega
   omega
 
+/-- the same for the size facts stated with the extracted period -/
+theorem repInv_not_sufficientP :
+    ¬ (∀ (B : Nat) (r : RSQ.RSQVector) (s : List Nat), RSQP.RepInv B r s → RSQSizeP B s.length r) := by
+  intro H
+  obtain ⟨r, _, hinv⟩ := RSQP.fromQV_ok (B := 256) false (Or.inl rfl) holds_empty
+    (fun x hx => by cases hx) (Nat.two_pow_pos 43)
+  have hsz : (fatten r).rs.selectSamples.size = 4 := by
+    rw [fatten_samples, Array.size_modify]; exact hinv.rs.samples_size
+  have hinv' : RSQP.RepInv 256 (fatten r) [] :=
+    ⟨hinv.hB, by rw [fatten_qv]; exact hinv.holds, hinv.syms, hinv.hlen,
+      ⟨by rw [fatten_sbs]; exact hinv.rs.sbs_size, by rw [fatten_sbs]; exact hinv.rs.sb,
+        by rw [fatten_sbs]; exact hinv.rs.fl, hsz,
+        fun c _ hpos => absurd hpos (by rw [List.count_nil]; exact Nat.lt_irrefl 0)⟩,
+      by rw [fatten_occs]; exact hinv.occs⟩
+  have h := (H 256 (fatten r) [] hinv').samples
+  rw [toList4 _ #[] hsz] at h
+  simp only [List.map_cons, List.map_nil, List.sum_cons, List.sum_nil, List.length_nil,
+    Nat.zero_div] at h
+  have h0 : ((fatten r).rs.selectSamples.getD 0 #[]).size ≥ 100 := by
+    rw [fatten_samples, RSQP.getD_modify, if_pos ⟨rfl, by rw [hinv.rs.samples_size]; decide⟩, Array.size_append,
+      pad_size]
+    omega
+  omega
+
 /-- `n` zero bits in `lines` lines of 512 bits -/
 def zeroBV (lines n : Nat) : BV.BitVector := { data := Array.replicate (8 * lines) 0, nBits := n, nOnes := 0 }
 
@@ -454,16 +623,21 @@ def zeros8000Samples : Option Nat :=
   | .ok r => some (r.selectSamples.toList.map Array.size).sum
   | .error _ => none
 
-theorem zeros8000_samples : zeros8000Samples = some 5 := by decide +kernel
+/-- (a fact about the hint period 8192: with a period of 16384 or more the 8192 zeros of the
+    padded vector do not reach a second hint, and `RSWSize` does hold; so the two periods enter as
+    hypotheses, which `rfl` discharges on the current values — the evaluation is skipped by the
+    kernel when they are false) -/
+theorem zeros8000_samples : Extracted.wideOnesPerHint = 8192 → Extracted.wideZerosPerHint = 8192 →
+    zeros8000Samples = some 5 := by decide +kernel
 
 /-- `RSWSize.samples` (`≤ 2·(n/8192) + 4`) fails for the vector built from 8000 zero bits, although
     the vector satisfies `RSW.Inv`; `RSWSize'` (`≤ n/8192 + 5`) is what holds (`rsw_sizes'`) -/
-theorem rsw_sizes_false :
+theorem rsw_sizes_false (h1 : Extracted.wideOnesPerHint = 8192) (h0 : Extracted.wideZerosPerHint = 8192) :
     ¬ (∀ (r : RSW.RSWide) (s : List Bool), RSW.Inv r s → RSWSize s.length r) := by
   intro H
   obtain ⟨r, e, _, hinv⟩ := RSW.new_inv (zeroBV_holds 16 8000 (by decide))
     (by rw [List.length_replicate]; decide)
-  have h5 := zeros8000_samples
+  have h5 := zeros8000_samples h1 h0
   unfold zeros8000Samples at h5
   rw [e] at h5
   have h5' : (r.selectSamples.toList.map Array.size).sum = 5 := Option.some.inj h5
